@@ -56,6 +56,28 @@ def growTo (o : SqObj) (k : Nat) : SqObj :=
   let s := sqGrowTo o.digital o.salloc k
   { o with salloc := s, mcap := if s ≠ o.salloc then s else o.mcap }
 
+/-- appending one residue `r` (and one markup character `m` to every markup line) the way the sequence readers do:
+    `esl_sq_Grow`, store at `seq[n]` / `dsq[n+1]` and in every markup buffer, `n++`, `esl_sq_Grow` again, terminate everything.
+    `none` = a store outside an allocation -/
+def append (o : SqObj) (r m : Nat) : Option (Int × SqObj) :=
+  let g1 := o.grow
+  let o1 := g1.2
+  let cell := if o.digital then o.n + 1 else o.n
+  if cell ≥ o1.salloc || (o.hasMarkup && decide (cell ≥ o1.mcap)) then none
+  else
+    let o2 : SqObj := { o1 with res := o1.res ++ [r], ss := o1.ss.map (· ++ [m]), xr := o1.xr.map (· ++ [m]) }
+    let g2 := o2.grow
+    let o3 := g2.2
+    let term := if o.digital then o2.n + 1 else o2.n
+    if term ≥ o3.salloc || (o.hasMarkup && decide (term ≥ o3.mcap)) then none else some (g1.1 + g2.1, o3)
+
+/-- `k` appends; the first component sums every `*opt_nsafe` the `2k` Grow calls answered (what the harness prints) -/
+def appendN (o : SqObj) (r m : Nat) : Nat → Int → Option (Int × SqObj)
+  | 0, acc => some (acc, o)
+  | k+1, acc => match append o r m with
+    | none => none
+    | some (ns, o') => appendN o' r m k (acc + ns)
+
 /-- `esl_sq_Digitize(abc, sq)`: `none` = a markup `memmove` outside its allocation -/
 def digitize (a : Alphabet) (o : SqObj) : Option (Status × SqObj) :=
   if o.digital then some (.ok, o)
@@ -133,6 +155,10 @@ def step (a : Alphabet) (o : SqObj) (tok : String) : Option (String × SqObj) :=
     match (tok.drop 3).toString.toNat? with
     | some k => some ("to=ok", growTo o k)
     | none => some ("to=bad", o)
+  else if tok.startsWith "a:" then
+    match (tok.drop 2).toString.toNat? with
+    | some k => (appendN o (if o.digital then 0 else 65) 43 k 0).map fun r => (s!"a={r.1}", r.2)
+    | none => some ("a=bad", o)
   else if tok == "c:text" then (copyTo a o false).map fun r => (s!"c={r.1.name}", r.2)
   else if tok == "c:digital" then (copyTo a o true).map fun r => (s!"c={r.1.name}", r.2)
   else some ("bad", o)
